@@ -2977,6 +2977,7 @@ func (r *Resolver) lookupNSAddrV6(ctx context.Context, qname string, cd bool) (a
 func (r *Resolver) lookupV4Nss(ctx context.Context, q dns.Question, authservers *authority.Servers, key uint64, parentDS []dns.RR, foundv4, hosts hostSet, cd bool, cutDeadline time.Time) error {
 	list := sortHosts(hosts, q.Name)
 	var lastAttemptLimit error
+	provisional := false
 
 	for _, name := range list {
 		// Hosts is copied by readers (checkHosts) under RLock once
@@ -3017,6 +3018,7 @@ func (r *Resolver) lookupV4Nss(ctx context.Context, q dns.Question, authservers 
 			// still refreshes the provisional set promptly. A past deadline
 			// is not cached (SetUntil skips it).
 			r.delegations.SetUntil(key, parentDS, authservers, minNonZero(cutDeadline, time.Now().Add(time.Minute)))
+			provisional = true
 		}
 
 		addrs, err := r.lookupNSAddrV4(ctx, name, cd)
@@ -3027,6 +3029,15 @@ func (r *Resolver) lookupV4Nss(ctx context.Context, q dns.Question, authservers 
 				errors.Is(err, middleware.ErrMaxRecursion) ||
 				errors.Is(err, context.Canceled) ||
 				errors.Is(err, context.DeadlineExceeded) {
+				// This request gives up in the middle of the host list.
+				// The provisional entry holds only the servers found so
+				// far; left behind, the next request would take that
+				// truncated list for the delegation, and if those few are
+				// dead, record the whole zone as unreachable without ever
+				// asking its healthy servers.
+				if provisional {
+					r.delegations.Remove(key)
+				}
 				return err
 			}
 			if errors.Is(err, middleware.ErrResolutionAttemptLimit) ||
